@@ -203,8 +203,8 @@ Inductive amode := MSet | MTmp | MWith.
 Definition register (m : amode) (s : state) (rs : list deferred) : state :=
   match m with
   | MSet => s
-  | MTmp => set_defers s (rs ++ st_defers s)
-  | MWith => set_wrest s (rs ++ st_wrest s)
+  | MTmp => emit (set_defers s (rs ++ st_defers s)) (map (GReg (g_frame (st_ghost s))) rs)
+  | MWith => emit (set_wrest s (rs ++ st_wrest s)) (map (GWAssign (g_wid (st_ghost s))) rs)
   end.
 
 (* lvalues (with their indices) first, then the right-hand side, then the
@@ -259,14 +259,14 @@ Definition bind_opts (declared supplied : list (N * value)) : option (list (N * 
   else None.
 
 (* deferred work of a frame, most recent first; the first exception is kept *)
-Fixpoint run_defers (run : runner) (ds : list deferred) (s : state)
+Fixpoint run_defers (run : runner) (fid : nat) (ds : list deferred) (s : state)
          (first : option (exkind * list value)) : res :=
   match ds with
   | [] => match first with None => ret s [] | Some (k, p) => throw s k p end
-  | DRestore a v :: r => run_defers run r (store_at s a v) first
+  | DRestore a v :: r => run_defers run fid r (emit (store_at s a v) [GRun fid (DRestore a v)]) first
   | DCall f :: r =>
-    settle (run (TCall f [] [] []) s) (fun s' o =>
-      run_defers run r s'
+    settle (run (TCall f [] [] []) (emit s [GRun fid (DCall f)])) (fun s' o =>
+      run_defers run fid r s'
         match first, o with
         | None, Exc k p => Some (k, p)      (* a callback that succeeds contributes nothing *)
         | _, _ => first
@@ -283,15 +283,16 @@ Definition call_closure (run : runner) (args : list N) (rest : option nat)
     | None => throw s KBadOpt []
     | Some obs =>
       let '(s1, e1) := alloc_all s (combine args vals' ++ obs) cenv in
-      let s2 := set_frame s1 e1 [] true in
+      let fid := g_next (st_ghost s1) in
+      let s2 := enter_frame (set_frame s1 e1 [] true) in
       settle (run (TChunk body) s2) (fun s3 o =>
         (* `fn` captures return *)
         let o1 := match o with
                   | Exc KReturn _ => if isfn then Done [] else o
                   | _ => norm o
                   end in
-        settle (run_defers run (st_defers s3) (set_defers s3 []) None) (fun s4 o' =>
-          (set_frame s4 (st_env s) (st_defers s) (st_infn s),
+        settle (run_defers run fid (st_defers s3) (set_defers s3 []) None) (fun s4 o' =>
+          (leave_frame (set_frame s4 (st_env s) (st_defers s) (st_infn s)) fid (g_frame (st_ghost s)),
            match o1 with
            | Done _ => norm o'        (* a deferred exception shows only if the body succeeded *)
            | _ => o1
@@ -511,7 +512,8 @@ Definition apply_builtin (run : runner) (b : builtin) (args : list value)
       | [f] =>
         match f with
         | VClos _ _ _ _ _ _ =>
-          if st_infn s then ret (set_defers s (DCall f :: st_defers s)) []
+          if st_infn s
+          then ret (emit (set_defers s (DCall f :: st_defers s)) [GReg (g_frame (st_ghost s)) (DCall f)]) []
           else throw s KOther []          (* defer must be called from within a closure *)
         | VOpaque => unsup s
         | _ => throw s KArgType []
@@ -673,13 +675,15 @@ Definition step_cmd (run : runner) (c : cmd) (inp : list value) (s : state) : re
   | CTmp lvs rhs => if st_infn s then do_assign run MTmp lvs rhs s else unsup s
   | CWith assigns body =>
     let saved := st_wrest s in
-    settle (with_assigns run assigns (set_wrest s [])) (fun s1 o =>
+    let w := g_next (st_ghost s) in
+    settle (with_assigns run assigns (enter_with (set_wrest s []))) (fun s1 o =>
       let rs := st_wrest s1 in
-      let s2 := set_wrest s1 saved in
+      let s2 := leave_with (set_wrest s1 saved) (g_wid (st_ghost s)) in
+      let undo (s' : state) := emit (apply_restores s' rs) (rev (map (GWRestore w) rs)) in
       match o with
       | Done _ =>
-        settle (call_block run body s2) (fun s3 o' => (apply_restores s3 rs, norm o'))
-      | _ => (apply_restores s2 rs, o)      (* a failed assignment: undo the earlier ones *)
+        settle (call_block run body s2) (fun s3 o' => (undo s3, norm o'))
+      | _ => (undo s2, o)      (* a failed assignment: undo the earlier ones *)
       end)
   | CDel ts => del_targets run ts s
   | CIf branches els => if_chain run branches els s
@@ -785,7 +789,7 @@ Definition default_fuel : nat := N.to_nat 1500.
 Definition const_env : env := [(3000, 0%nat); (3001, 1%nat); (3002, 2%nat); (3003, 3%nat)].
 Definition const_store : list value := [VBool true; VBool false; VNil; VOk].
 Definition start_state (stale : bool) : state :=
-  mkState const_env const_store [] [] false [] stale.
+  mkState const_env const_store [] [] false [] ghost0 stale.
 
 Definition run_program (fuel : nat) (stale : bool) (p : chunk) : res :=
   eval fuel (TChunk p) (start_state stale).
